@@ -274,6 +274,18 @@ func idxLessThanLen(facts []fact, i, x ssa.Value, strict bool) bool {
 			op = flipOp(op)
 		}
 		rx, rIsLen := lenOf(r)
+		if !rIsLen {
+			// i < min(k, len(x)) bounds i by len(x) as well
+			if mc, isCall := unconvNum(r).(*ssa.Call); isCall {
+				if bi, isB := mc.Call.Value.(*ssa.Builtin); isB && bi.Name() == "min" {
+					for _, a := range mc.Call.Args {
+						if ax, isLen := lenOf(a); isLen && sameVal(ax, x) {
+							rx, rIsLen = ax, true
+						}
+					}
+				}
+			}
+		}
 		if !rIsLen || !sameVal(rx, x) || !sameNum(l, i) {
 			continue
 		}
@@ -438,6 +450,50 @@ func dischargeIndex(fn *ssa.Function, site ssa.Instruction, x, i ssa.Value) (boo
 			return true, "dominated by i < len(x); i is non-negative"
 		}
 		return false, "dominated by i < len(x) but i is not provably non-negative"
+	}
+	// the counter of a rotated loop over a slice / string: i = phi(0, next), entered only if 0 < t and repeated only
+	// while next < t, where t is len(x) or min(…, len(x))
+	if phi, isPhi := unconvNum(i).(*ssa.Phi); isPhi && nonNegative(i, 0) {
+		boundedByLen := func(t ssa.Value) bool {
+			if tx, isLen := lenOf(t); isLen && sameVal(tx, x) {
+				return true
+			}
+			if mc, isCall := unconvNum(t).(*ssa.Call); isCall {
+				if bi, isB := mc.Call.Value.(*ssa.Builtin); isB && bi.Name() == "min" {
+					for _, a := range mc.Call.Args {
+						if ax, isLen := lenOf(a); isLen && sameVal(ax, x) {
+							return true
+						}
+					}
+				}
+			}
+			return false
+		}
+		all := len(phi.Edges) > 0
+		for ei, e := range phi.Edges {
+			pred := phi.Block().Preds[ei]
+			iff, isIf := pred.Instrs[len(pred.Instrs)-1].(*ssa.If)
+			okEdge := false
+			if isIf {
+				if bo, isB := iff.Cond.(*ssa.BinOp); isB && bo.Op == token.LSS && pred.Succs[0] == phi.Block() && boundedByLen(bo.Y) {
+					same := sameNum(bo.X, e)
+					if k1, ok1 := constInt(bo.X); ok1 {
+						if k2, ok2 := constInt(e); ok2 && k1 == k2 {
+							same = true
+						}
+					}
+					if same {
+						okEdge = true
+					}
+				}
+			}
+			if !okEdge {
+				all = false
+			}
+		}
+		if all {
+			return true, "loop counter: every entry into the body is under counter < len(x) (or < min(…, len(x)))"
+		}
 	}
 	// array with masked / bounded index
 	if n, ok := arrayLen(x.Type()); ok {
